@@ -2,7 +2,7 @@
 (* C12 / C13 cases: [t |-> "parse", b (octets), out] | [t |-> "build", ...] | [t |-> "reser", ...] *)
 EXTENDS CemiLData, Json, IOUtils, TLC
 Cases == ndJsonDeserialize(IOEnv.TRACE_FILE)
-Ok(c) == CASE c.t = "parse" -> ParseOk(c.b, c.out) [] c.t = "build" -> BuildOk(c) [] c.t = "reser" -> ReserialiseOk(c) [] OTHER -> FALSE
+Ok(c) == CASE c.t = "parse" -> ParseOk(c.b, c.out) [] c.t = "build" -> BuildOk(c) [] c.t = "asmade" -> AsMadeOk(c) [] c.t = "reser" -> ReserialiseOk(c) [] OTHER -> FALSE
 Bad == {i \in 1..Len(Cases) : ~Ok(Cases[i])}
 \* the grammar accepts the captured group telegram carried by the test suite (GroupValueWrite 1 bit to 2/0/6 from 1.1.7? - structure only)
 ASSUME LDataWellFormed(<<41, 0, 188, 224, 17, 7, 16, 6, 1, 0, 129>>)
